@@ -97,7 +97,7 @@ PROPS = {
         rule="well-formed requests (with OPT, junk records in every section) damaged by: truncation at every kind of "
              "offset, appended junk (1-300 octets), each count +-1 / 0 / 65535, RDLENGTH edits, OPT/TSIG moved to "
              "answer/authority, duplicated OPT, pointer retargeting, inserts, deletes, flips; 5/6 of requests are damaged. "
-             "Judged when P finds a FORMERR-class problem (or a QUERY without question). distinct = (reason, response shape); a fifth of the requests get 0/1/2 OPT records at any position with arbitrary version / extended-RCODE octets and owners, so that duplicate-OPT FORMERR competes with BADVERS; an eighth of the requests carry a record whose owner labels total 252-256 octets, ended by a root label or a pointer to the QNAME (the 255-octet name limit decides whether the record can be delimited); a quarter of the scenarios switch rate limiting on with limits that are never reached (every response passes through the limiter's classification and must come out unchanged)",
+             "Judged when P finds a FORMERR-class problem (or a QUERY without question). distinct = (reason, response shape); a fifth of the requests get 0/1/2 OPT records at any position with arbitrary version / extended-RCODE octets and owners, so that duplicate-OPT FORMERR competes with BADVERS; an eighth of the requests carry a record whose owner labels total 252-256 octets, ended by a root label or a pointer to the QNAME (the 255-octet name limit decides whether the record can be delimited); a quarter of the scenarios switch rate limiting on with limits that are never reached (every response passes through the limiter's classification and must come out unchanged); a third of the servers have TSIG keys, and signed requests include ones whose TSIG class alone, TTL alone, or both are wrong",
         assumptions=COMMON_ASSUMPTIONS + ["a TSIG TTL with the top bit set is not judged (RFC 2181 §8 reads it as zero)"],
         quick=plans(dict(build="dbg", nshards=16)),
         thorough=plans(dict(build="dbg", nshards=16), dict(build="rel", nshards=16), dict(build="asan", nshards=16, scale=0.2), dict(build="miri", nshards=16, timeout=3000)),
@@ -186,9 +186,11 @@ PROPS = {
              "response / subsequent with both algorithms, 1-128-octet keys, times 0 / 2^48-1 / random, fudge 0/1/300/65535, "
              "errors incl. BADTIME (other-data), prior MACs of 0-64 octets; per message: 5 time probes (edges of the window), "
              "9 MAC lengths around the allowed range, a wrong truncated MAC, bit 0 flipped in every octet from offset 2 "
-             "(<= 260 octets in quick), corrupted prior MAC, wrong key. distinct = (mode, algorithm, error, prior length) and probe classes; corruption uses three single-bit masks per covered octet (0x01, 0x02, 0x04)",
+             "(<= 260 octets in quick), corrupted prior MAC, wrong key. distinct = (mode, algorithm, error, prior length) and probe classes; corruption uses four single-bit masks per covered octet (0x01, 0x02, 0x04, 0x80)",
         assumptions=COMMON_ASSUMPTIONS + [
             "octets 0-1 (message ID) are not corrupted: the digest covers the original ID from the TSIG RR instead",
+            "bit 5 (a pure ASCII-case change in a name) is never the flipped bit, and the top bit of the TSIG RR's TTL is not flipped "
+            "(RFC 2181 §8: a TTL with the top bit set is read as zero, which is what the library digests)",
             "for subsequent messages only the timers of the TSIG RR are covered (RFC 8945 §4.3.3.1); corruptions of other TSIG "
             "fields that still verify are counted, not flagged"],
         quick=plans(dict(build="dbg", nshards=16)),
@@ -222,7 +224,7 @@ PROPS = {
              "non-root label physically written in an earlier name and not inside the header; RDATA of SRV / CH A / unknown "
              "types and the TSIG RDATA are octet-identical to the input (no pointer can have been emitted there); no name "
              "written while compression was disabled contains a pointer; none at all when it was disabled throughout. "
-             "evidence counts pointers checked (outcome_histogram.pointers-checked); two thirds of the programs with a 70 000-octet buffer start with one padding record that puts the following names within 90 octets of offset 16384 (the first offset a 14-bit pointer cannot express)",
+             "evidence counts pointers checked (outcome_histogram.pointers-checked); two thirds of the programs with a 70 000-octet buffer start with one padding record that puts the following names within 90 octets of offset 16384 (the first offset a 14-bit pointer cannot express); hint pointers that became stale (clear_rrs, rolled-back adds) are passed back as explicit hints when they lie at or beyond the cursor, after directed records that put the cursor exactly on one (histogram keys stale-hints:*); a reference-decoder BadPointer error on the finished message and the writer's own 'invalid pointer found during compression' panic count as C13 violations",
         assumptions=COMMON_ASSUMPTIONS,
         quick=plans(dict(build="dbg", nshards=16), dict(build="miri", nshards=4, timeout=900)),
         thorough=plans(dict(build="dbg", nshards=16), dict(build="rel", nshards=16), dict(build="asan", nshards=16, scale=0.2), dict(build="miri", nshards=16, timeout=3000)),
@@ -301,9 +303,9 @@ PROPS = {
         technique="conservation oracle over concurrent bursts (sent + slipped + dropped = N and sent = min(N, rate*window)) on "
                   "real OS threads released by a barrier; ThreadSanitizer and Miri (data-race detection) builds of the same workload",
         rule="T in {2,4,8,16} threads (2-3 under Miri), capacity in {1,5,50,1000} as rate*1 or (rate/5)*5, N from below the "
-             "capacity to 20x, yield_now after every / every 7th / no call; bursts that took >= 0.5 s are discarded. The "
+             "capacity to 20x, yield_now after every / every 7th / no call; bursts that took >= 0.5 s (pre-fill included) are discarded. The "
              "monitor records how many calls were in flight at once (max_overlap_observed); distinct = (T, capacity, N/capacity, overlap); half of the bursts against multi-second windows first fill the bucket sequentially, advance the virtual clock by k < window seconds and then expect exactly rate x k responses from the concurrent burst; threads leave a spinning start line within nanoseconds of one another",
-        assumptions=COMMON_ASSUMPTIONS + ["a burst is judged only if it finished within 0.5 s of real time (otherwise a refill is legitimate)"],
+        assumptions=COMMON_ASSUMPTIONS + ["a burst (together with its sequential pre-fill, if any) is judged only if it finished within 0.5 s of real time (otherwise a further refill is legitimate)"],
         quick=plans(dict(build="dbg", nshards=16, parallel=4), dict(build="miri", nshards=4, timeout=900)),
         thorough=plans(dict(build="dbg", nshards=16, parallel=4), dict(build="rel", nshards=16, parallel=4),
                        dict(build="tsan", nshards=8, parallel=2, scale=0.1), dict(build="miri", nshards=16, timeout=3000, miriflags="-Zmiri-many-seeds=0..8")),
